@@ -31,14 +31,27 @@ func c13Extras(variant int, withError bool) srcFile {
 	b.WriteString("{msg desc=\"collide\"}{$a.x}{$a.y.x}{$x_1} <b>bold</b> <a href=\"u\">link</a> <a href=\"v\">other</a>{/msg}\n")
 	b.WriteString("{msg desc=\"pl\"}{plural length($a)}{case 0}none{case 1}one {$a.x}{default}{$a.y.x} many{/plural}{/msg}\n")
 	b.WriteString("{call .need}{param p: ['delta': 4, 'alpha': 1, 'charlie': 3, 'bravo': 2] /}{param q: GLOBAL_INT /}{/call}\n")
+	extraTemplates := ""
 	if withError {
-		switch variant % 3 {
+		// error texts that list several names: the order of the names is part of the text
+		switch variant % 8 {
 		case 0:
 			b.WriteString("{call .need}{param p: ['delta': 4, 'alpha': 1, 'charlie': 3, 'bravo': 2] /}{/call}\n") // required q missing
 		case 1:
 			b.WriteString("{call .nosuch}{param p: ['zulu': 1, 'alpha': 2, 'mike': 3] /}{/call}\n")
-		default:
+		case 2:
 			b.WriteString("{$undeclared}\n")
+		case 3:
+			b.WriteString("{call .need4}{param zulu: 1 /}{/call}\n") // four required params missing
+			extraTemplates = "/** @param hotel\n * @param alpha\n * @param zulu\n * @param mike\n * @param bravo */\n{template .need4}{$hotel}{$alpha}{$zulu}{$mike}{$bravo}{/template}\n"
+		case 4:
+			b.WriteString("{call .c1}{param whiskey: 1 /}{param alpha: 2 /}{param kilo: 3 /}{param echo: 4 /}{/call}\n") // four undeclared params
+		case 5:
+			b.WriteString("{let $whiskey: 1 /}{let $alpha: 2 /}{let $kilo: 3 /}{let $echo: 4 /}\n") // four unused lets
+		case 6:
+			extraTemplates = "/** @param hotel\n * @param alpha\n * @param zulu\n * @param mike */\n{template .unused4}x{/template}\n" // four unused params
+		default:
+			extraTemplates = "/** @param hotel\n * @param alpha\n * @param zulu */\n{template .scope}{$hotel}{$alpha}{$zulu}{let $mike: 1 /}{let $bravo: 2 /}{let $tango: 3 /}{$mike}{$bravo}{$tango}{$nowhere}{/template}\n"
 		}
 	}
 	b.WriteString("{/template}\n")
@@ -46,6 +59,7 @@ func c13Extras(variant int, withError bool) srcFile {
 		fmt.Fprintf(&b, "{template .c%d}c%d{/template}\n", i, i)
 	}
 	b.WriteString("/** @param p\n * @param q */\n{template .need}{length(keys($p))}{$q}{/template}\n")
+	b.WriteString(extraTemplates)
 	return srcFile{"extras.soy", b.String()}
 }
 
@@ -106,8 +120,8 @@ func c13Program(seed uint64, tier string) (files []srcFile, prog *gen.Program, h
 	g.O.Msgs, g.O.Globals = true, true
 	prog = g.Bundle(1+r.Intn(3), 2+r.Intn(4))
 	hasErr = r.P(1, 3)
-	variant := r.Intn(6)
-	if hasErr && variant >= 3 {
+	variant := r.Intn(11)
+	if hasErr && variant >= 8 {
 		// one injected rule violation in the generated part
 		kinds := []string{"undeclared-name", "unused-let", "unknown-callee", "undeclared-call-param"}
 		ok, _ := inject(prog.B, kinds[r.Intn(len(kinds))], r.Intn(3))
@@ -186,7 +200,7 @@ func init() {
 		ID:    "C13",
 		Level: "exploration",
 		Rule: "cases = seeded bundles (C02 generator with messages and globals) plus an extras file that leans on what Go maps touch (7 callees and 9 functions / 8 directives for the ES6 import " +
-			"block, map literals that reach error messages, colliding placeholder names, plurals, globals); one third carry exactly one injected compile error. For each bundle the observable tuple " +
+			"block, map literals that reach error messages, colliding placeholder names, plurals, globals); one third carry exactly one injected compile error (eight of the eleven flavours produce an error text that lists several names). For each bundle the observable tuple " +
 			"(accept/reject + compile error text, message ids + placeholder strings, rendered outputs, SHA-1 of the JavaScript of every file under ES5/ES6 with and without a message bundle) is " +
 			"computed 20 (thorough 60) times in-process, once in another process, and under every permutation of file insertion order (<= 4 files, else 12 sampled): all must be identical. " +
 			"distinct = distinct bundle; non-trivial = all",
